@@ -49,18 +49,56 @@ func newWorld(t ev.TB, height uint64) *world {
 }
 
 // simpleRun feeds wires to one reactor's Receive with stages 1, 4 and 5 of the oracle.
+//
+// The allocation stage reads the process-wide allocation counter, so whatever a background goroutine of the node (pool
+// loop, fetcher, an earlier case's aftermath) allocates while a call runs is charged to that call. An exceeded bound is
+// therefore confirmed before it is reported: the same messages are fed again, twice, each time on a settled process,
+// and only a bound that is exceeded every time is a finding (an allocation driven by the peer's bytes is; a burst in
+// the background is not).
 func simpleRun(t ev.TB, rep reporter, name string, recv func(byte, p2p.Peer, []byte), peer *tpeer, probes []lockProbe, ws []wire, text func() string) (abandoned, dropped bool) {
-	for i, w := range ws {
-		w := w
-		r := guarded(func() { recv(w.ch, peer, w.data) })
-		if !oracle(t, rep, fmt.Sprintf("%s Receive(message %d)", name, i), "alloc."+name+".receive", r, len(w.data), probes, text) {
-			return true, false
+	run := func(r reporter) (bool, bool) {
+		for i, w := range ws {
+			w := w
+			res := guarded(func() { recv(w.ch, peer, w.data) })
+			if !oracle(t, r, fmt.Sprintf("%s Receive(message %d)", name, i), "alloc."+name+".receive", res, len(w.data), probes, text) {
+				return true, false
+			}
+			if !peer.IsRunning() {
+				return false, true
+			}
 		}
-		if !peer.IsRunning() {
-			return false, true
+		return false, false
+	}
+	suspectKey, suspectMsg := "", ""
+	hold := func(key, c, msg string) bool {
+		if strings.HasPrefix(key, "alloc.") {
+			suspectKey, suspectMsg = key, msg
+			return true // abandon this pass; judged below
+		}
+		return rep(key, c, msg)
+	}
+	abandoned, dropped = run(hold)
+	if suspectKey == "" {
+		return abandoned, dropped
+	}
+	first := suspectMsg
+	for again := 0; again < 2; again++ {
+		acct = newAccount(true)
+		suspectKey = ""
+		run(func(key, c, msg string) bool {
+			if strings.HasPrefix(key, "alloc.") {
+				suspectKey, suspectMsg = key, msg
+			}
+			return true
+		})
+		if suspectKey == "" {
+			ev.Class("alloc-bound-exceeded-once-not-when-fed-again")
+			ev.Note("allocation bound exceeded once, not when the same messages were fed again", first)
+			return abandoned, dropped
 		}
 	}
-	return false, false
+	rep("alloc."+name+".receive", text(), "three passes out of three: "+suspectMsg)
+	return true, dropped
 }
 
 // ---------------------------------------------------------------- transaction pool
